@@ -80,10 +80,14 @@ const (
 	// the implementation.
 	livenessPolls = 1000
 	// pollCap stops runaway searches (harness safety, not a verdict).
-	pollCap = 600_000
+	pollCap = 600_000 // default; scenarios with an explicit hard node budget are bounded by that budget instead
 )
 
 type livenessAbort struct{ detail string }
+
+// harnessKill unwinds a search the harness gave up waiting for, so that no
+// goroutine is left behind in the bubble.
+type harnessKill struct{}
 
 // agent is the simulator's handle on one running search: it is driven from
 // the yield hook at the top of every abort poll.
@@ -163,6 +167,9 @@ func (a *agent) poll(s *search.Search, o *search.Options) {
 		if a.qleft <= 0 {
 			a.coop.toSched <- struct{}{}
 			a.qleft = <-a.coop.resumeN
+			if a.qleft < 0 {
+				panic(harnessKill{})
+			}
 		}
 		a.qleft--
 	}
@@ -272,6 +279,9 @@ var wantDigest = true
 // uses simulated time. A panic in the search is captured, not propagated.
 func runGo(s *search.Search, b *board.Board, req Request, sched Sched, co *coop, extra func(*agent, *search.Search, *search.Options)) (res SearchResult) {
 	a := &agent{req: req, sched: sched, coop: co, stop: make(chan struct{}), pollCap: pollCap, onPoll: extra}
+	if req.Nodes > pollCap/3 {
+		a.pollCap = 3*req.Nodes + 1000 // a deliberately long search: its own budget bounds it
+	}
 	if co != nil {
 		a.board = b
 	}
